@@ -160,9 +160,9 @@ func lemmaBackoffMono(T, i, j int) {
 //@   requires c != nil && c.conn != nil && c.logger != nil && c.pending != nil
 //@   modifies c.pending
 //@   after `call:ReadFrom` let S0 = chsends()
-//@   after `c.pendingMu.Unlock()` claim[at-most-one] chsends() == S0 || chsends() == S0 + 1
-//@   after `c.pendingMu.Unlock()` claim[decoded] chsends() == S0 + 1 ==> lastChanValue() == msg && msg != nil && len(b[:n]) >= 4 && string(msg.TransactionID[:]) == string(b[:n])[1:4]
-//@   after `c.pendingMu.Unlock()` claim[own-channel] chsends() == S0 + 1 ==> has(c.pending, msg.TransactionID) && lastChan() == c.pending[msg.TransactionID].ch
+//@   after `call:Unlock` claim[at-most-one] chsends() == S0 || chsends() == S0 + 1
+//@   after `call:Unlock` claim[decoded] chsends() == S0 + 1 ==> lastChanValue() == msg && msg != nil && len(b[:n]) >= 4 && string(msg.TransactionID[:]) == string(b[:n])[1:4]
+//@   after `call:Unlock` claim[own-channel] chsends() == S0 + 1 ==> has(c.pending, msg.TransactionID) && lastChan() == c.pending[msg.TransactionID].ch
 
 // ---------- the exchanges (property C13): what is asked, what may complete it, what comes back ----------
 
